@@ -57,6 +57,11 @@ TraceStep == /\ l <= Len(Trace) /\ l' = l + 1 /\ UNCHANGED <<store, last>>
 TraceSpec == TraceInit /\ [][TraceStep]_<<l, store, last>>
 AllConsumed == TLCGet("stats").diameter = Len(Trace) + 1
 
+\* System-call audit (strace over the real store, FileStoreSync on): when an operation returns, every
+\* store file it wrote has been synced after its last write - what the power-loss images take for granted
+\* at the end of an operation.
+AuditFails(r) == {c \in {"syncedOnReturn"} : ~ (r.unsynced = <<>>)}
+
 \* SQL: a failure of either statement (or of the commit) of save-and-increment leaves neither behind
 SqlFails(r) == {c \in {"atomic"} :
     ~ IF r.fail = "none" THEN (~r.err /\ r.cacheNs = r.next + 1 /\ r.reopenNs = r.next + 1 /\ r.present /\ r.reopenPresent)
